@@ -139,6 +139,10 @@ theorem not_in_range_unknown_before_first_fetch {α} (rows : List α) (i : Int) 
 /-- the WHILE IN skeleton is the one `loopS` / `whileIn` assume (see Ref/CursorOps.lean) -/
 theorem gen_while_in_skeleton_eq_ref : Gen.CursorOps.fxWhileInCursor = Ref.fxWhileInCursor := by decide
 
+/-- FetchCursor (query.go): the order "evaluate the number → move the cursor → compare the number of variables"
+    is the one `fetchBad`, `stepFetchInto` and `whileInto` assume -/
+theorem gen_fetch_cursor_skeleton_eq_ref : Gen.CursorOps.fxFetchCursor = Ref.fxFetchCursor := by decide
+
 theorem gen_constructors_eq_ref :
     Gen.CursorOps.fxNewCursor = Ref.fxNewCursor ∧ Gen.CursorOps.fxNewPseudoCursor = Ref.fxNewPseudoCursor := by decide
 
@@ -154,6 +158,26 @@ theorem gen_scope_walk_eq_ref :
     Gen.CursorOps.fxScopeOpenCursor = Ref.fxScopeOpenCursor ∧ Gen.CursorOps.fxScopeCloseCursor = Ref.fxScopeCloseCursor ∧
     Gen.CursorOps.fxScopeFetchCursor = Ref.fxScopeFetchCursor ∧ Gen.CursorOps.fxScopeCursorIsOpen = Ref.fxScopeCursorIsOpen ∧
     Gen.CursorOps.fxScopeCursorIsInRange = Ref.fxScopeCursorIsInRange ∧ Gen.CursorOps.fxScopeCursorCount = Ref.fxScopeCursorCount := by decide
+
+/-! ## T-gen: lock discipline of cursor.go (Gen/CursorLocks.lean: every control-flow path of every function) -/
+
+/-- `(*Cursor).Close` releases the mutex on every path before it returns (seed C16-m14: an early return
+    after Lock() left the cursor locked, the next OPEN / CLOSE of it never returned) -/
+theorem gen_cursor_locks_balanced_close : (lockPathsOf "Cursor.Close").map locksBalanced = some true := by decide
+
+theorem gen_cursor_locks_balanced_open : (lockPathsOf "Cursor.Open").map locksBalanced = some true := by decide
+
+theorem gen_cursor_locks_balanced_fetch : (lockPathsOf "Cursor.Fetch").map locksBalanced = some true := by decide
+
+/-- every function of cursor.go: on every path each Lock is followed by an Unlock (explicit, or deferred)
+    before every return; no double Lock, no Unlock of a free mutex -/
+theorem gen_cursor_locks_balanced : Gen.CursorLocks.paths.all (fun m => locksBalanced m.2) = true := by decide
+
+/-- exactly Open, Close and Fetch take the cursor's mutex (the status readers IsOpen / IsInRange / Count /
+    Pointer do not: finding F79 of C13) — which is why only those three can hang on a leaked lock -/
+theorem gen_cursor_locking_methods :
+    (Gen.CursorLocks.paths.filter (fun m => m.2.any (fun p => p.contains "lock"))).map Prod.fst
+      = ["Cursor.Open", "Cursor.Close", "Cursor.Fetch"] := by decide
 
 /-! ## index invariant -/
 
@@ -572,6 +596,113 @@ theorem while_in_body_visits_all_once {α} (rows : List α) (hl : LenOK rows) (n
       conv => rhs; rw [hdrop]
       simp only [List.map_cons, List.cons_append, List.nil_append]
 
+/-! ## the number of INTO / WHILE variables; pseudo cursors of user-defined aggregates -/
+
+/-- FETCH … INTO with k variables: the pointer moves exactly as for any FETCH; the "fetch length" error is
+    raised only when a row came back and has another number of columns — addressing no row is never an error -/
+theorem fetch_into_spec {α} (w : α → Nat) (s : Scope α) (n : String) (p : Pos) (k : Nat) :
+    (stepFetchInto w s n p k).1 = (step s (.fetch n p)).1 ∧
+    (∀ r, (step s (.fetch n p)).2 = .row r →
+        (stepFetchInto w s n p k).2 = if w r = k then .row r else .err .fetchLength) ∧
+    ((∀ r, (step s (.fetch n p)).2 ≠ .row r) → (stepFetchInto w s n p k).2 = (step s (.fetch n p)).2) := by
+  unfold stepFetchInto
+  generalize step s (.fetch n p) = x
+  obtain ⟨s', res⟩ := x
+  cases res <;> simp
+  case row r => split <;> simp
+
+/-- WHILE v₁,…,vₖ IN over rows that all have k columns is the plain loop -/
+theorem while_into_matching_eq_while_in {α} (w : α → Nat) (k : Nat) (rows : List α) (hw : ∀ r ∈ rows, w r = k) :
+    ∀ (fuel : Nat) (i : Int) (f : Bool) (acc : List α) (c' : CState α) (seen : List α),
+      whileIn fuel none (CState.opened rows i f) acc = .ok (c', seen) →
+      whileInto w k fuel (CState.opened rows i f) acc = (c', seen, none) := by
+  intro fuel
+  induction fuel with
+  | zero =>
+    intro i f acc c' seen h
+    simp only [whileIn, Except.ok.injEq, Prod.mk.injEq] at h
+    simp [whileInto, h.1, h.2]
+  | succ fuel ih =>
+    intro i f acc c' seen h
+    unfold whileIn at h
+    unfold whileInto
+    split at h
+    · cases h
+    · rename_i c1 hf
+      simp only [Except.ok.injEq, Prod.mk.injEq] at h
+      simp [h.1, h.2]
+    · rename_i c1 r hf
+      obtain ⟨⟨i', rfl⟩, hr⟩ := fetch_keeps_rows rows i f .next _ _ hf
+      have hwr : w r = k := hw r (hr r rfl)
+      simp only [hwr, if_true]
+      exact ih _ _ _ _ _ h
+
+/-- … and with the wrong number of variables it stops at the first row: nothing is handed to the body,
+    the error is "fetch length", the pointer rests on that first row -/
+theorem while_into_mismatch_first_row {α} (w : α → Nat) (k : Nat) (r : α) (rest : List α) (f : Bool) (fuel : Nat)
+    (hl : LenOK (r :: rest)) (hw : w r ≠ k) :
+    whileInto w k (fuel + 1) (CState.opened (r :: rest) (-1) f) [] = (.opened (r :: rest) 0 true, [], some .fetchLength) := by
+  have h := fetch_next_some (r :: rest) (-1) f hl (by omega) (by simp)
+  simp only [whileInto, h]
+  simp [hw]
+
+/-- OPEN / CLOSE / DISPOSE of the aggregate's pseudo cursor: the "pseudo cursor" error, nothing changes -/
+theorem pseudo_cursor_refuses_life_cycle {α} (pk : String) (st : Stack α) (n : String) (rows : List α) (h : key n = pk) :
+    aggStep pk st (.open n rows) = (st, .err .pseudo) ∧ aggStep pk st (.close n) = (st, .err .pseudo) ∧
+    aggStep pk st (.dispose n) = (st, .err .pseudo) := by
+  simp [aggStep, h]
+
+/-- whatever the body does, the pseudo cursor stays in the function's block, over the same list of values -/
+theorem pseudo_cursor_survives_step {α} (pk : String) (b : Scope α) (rest : Stack α) (op : Op α)
+    (values : List α) (i : Int) (f : Bool) (h : lookup b pk = some (.opened values i f)) :
+    ∃ b' rest' i' f', (aggStep pk (b :: rest) op).1 = b' :: rest' ∧ lookup b' pk = some (.opened values i' f') := by
+  have keep : ∀ o : Op α, ¬ o.discards pk → ∃ i' f', lookup (step b o).1 pk = some (.opened values i' f') :=
+    fun o ho => step_keeps_view b o pk values i f h ho
+  have viaS : ∀ o : Op α, ¬ o.discards pk →
+      ∃ b' rest' i' f', (stepS (b :: rest) o).1 = b' :: rest' ∧ lookup b' pk = some (.opened values i' f') := by
+    intro o ho
+    simp only [stepS]
+    split
+    · obtain ⟨i', f', h'⟩ := keep o ho
+      exact ⟨_, _, i', f', rfl, h'⟩
+    · split
+      · obtain ⟨i', f', h'⟩ := keep o ho
+        exact ⟨_, _, i', f', rfl, h'⟩
+      · exact ⟨b, _, i, f, rfl, h⟩
+  cases op <;> simp only [aggStep]
+  case «open» n rows =>
+    split
+    · exact ⟨b, rest, i, f, rfl, h⟩
+    · exact viaS _ (by simp [Op.discards])
+  case close n =>
+    split
+    · exact ⟨b, rest, i, f, rfl, h⟩
+    · rename_i hk; exact viaS _ (by simpa [Op.discards] using hk)
+  case dispose n =>
+    split
+    · exact ⟨b, rest, i, f, rfl, h⟩
+    · rename_i hk; exact viaS _ (by simpa [Op.discards] using hk)
+  all_goals exact viaS _ (by simp [Op.discards])
+
+theorem pseudo_cursor_survives {α} (pk : String) (values : List α) (ops : List (Op α)) :
+    ∀ (b : Scope α) (rest : Stack α) (i : Int) (f : Bool), lookup b pk = some (.opened values i f) →
+      ∃ b' rest' i' f', (aggOps pk (b :: rest) ops).1 = b' :: rest' ∧ lookup b' pk = some (.opened values i' f') := by
+  induction ops with
+  | nil => intro b rest i f h; exact ⟨b, rest, i, f, rfl, h⟩
+  | cons op ops ih =>
+    intro b rest i f h
+    obtain ⟨b1, rest1, i1, f1, h1, h2⟩ := pseudo_cursor_survives_step pk b rest op values i f h
+    simp only [aggOps]
+    split
+    · rename_i st' e he
+      rw [he] at h1
+      exact ⟨b1, rest1, i1, f1, h1, h2⟩
+    · rename_i st' r hne he
+      rw [he] at h1
+      simp only at h1
+      subst h1
+      exact ih b1 rest1 i1 f1 h2
+
 /-! ## non-vacuity: the hypotheses are satisfiable, the model does something -/
 
 /-- hypotheses of `fetch_spec` hold together, also for the offsets that used to wrap around -/
@@ -629,5 +760,19 @@ example : (loopS 10 1 "c" [.sub (some 2) [.close "c", .open "c" [7, 8]], .act (.
 example : (nestS 10 [.declare "cur", .open "cur" [1, 2, 3]] "cur" [.sub (some 1) [.dispose "cur"]] [.isOpen "cur"]
       [[("CUR", .opened [10, 20] (-1) false)]]).2
     = ([.ok, .ok, .row 1, .ok, .row 10, .row 20, .none, .tern .T], true) := rfl
+
+/-- the checker refuses the shape of seed C16-m14 (return while the mutex is held) and the other misuses -/
+example : lockPathOK ["lock", "return"] = false ∧ lockPathOK ["lock", "unlock", "return"] = true ∧
+    lockPathOK ["lock", "defer-unlock", "return"] = true ∧ lockPathOK ["lock", "lock"] = false ∧
+    lockPathOK ["unlock"] = false ∧ lockPathOK ["lock", "defer-unlock", "unlock", "return"] = false ∧
+    lockPathOK ["lock"] = false := by decide
+
+/-- an aggregate body over the values [5, 6, 7]: FETCH, COUNT, a refused CLOSE (which ends the call) -/
+example : (aggRun "pc" [5, 6, 7] [.fetch "pc" .next, .count "PC", .isOpen "pc", .fetch "pc" .last, .close "pc", .fetch "pc" .first]
+      ([] : Scope Nat)).2 = ([.row 5, .int 3, .tern .T, .row 7, .err .pseudo], true) := rfl
+
+/-- one variable for a two-column row: the error, but the pointer has moved (the next FETCH returns row 2) -/
+example : (stepFetchInto (fun (r : List Nat) => r.length) [("C", .opened [[1, 2], [3, 4]] (-1) false)] "c" .next 1)
+    = ([("C", .opened [[1, 2], [3, 4]] 0 true)], .err .fetchLength) := rfl
 
 end Csvq.C16
